@@ -337,3 +337,28 @@ func (e *Env) Reply(body bin.Encoder) error {
 type RawBody []byte
 
 func (r RawBody) Encode(b *bin.Buffer) error { b.Put(r); return nil }
+
+// Watchdog runs f and reports whether it finished within d. When it does not, onHang is
+// called (typically env.Close, which force-closes the rpc engine and the transport so that
+// the stuck goroutines unwind) and f is abandoned: a hang of the implementation becomes an
+// oracle violation of the case instead of a dead harness.
+func Watchdog(d time.Duration, f func(), onHang func()) (finished bool) {
+	done := make(chan struct{})
+	go func() {
+		defer close(done)
+		f()
+	}()
+	select {
+	case <-done:
+		return true
+	case <-time.After(d):
+		if onHang != nil {
+			onHang()
+		}
+		select { // give it a moment to unwind after the close
+		case <-done:
+		case <-time.After(500 * time.Millisecond):
+		}
+		return false
+	}
+}
